@@ -140,10 +140,14 @@ func (c *FnVC) loopWrites(li *loopInfo) (map[string][]string, bool, bool) {
 					}
 					ct = c.P.contractFor(f)
 				}
+				ct = ct.forCall()
 				if ct == nil && !cc.IsInvoke() && cc.StaticCallee() == nil && c.ct != nil && c.ct.Uses["purefuncs"] {
 					if _, isTuple := in.(*ssa.Call).Type().(*types.Tuple); !isTuple {
 						continue // pure function value: no effect (see FnVC.call)
 					}
+				}
+				if ct == nil && c.assumedPureCall(cc) {
+					continue // `assume_pure`: no heap effect (assumption, see unknownCall)
 				}
 				if ct == nil || ct.ModAll {
 					everything = true
@@ -534,7 +538,23 @@ func (c *FnVC) invEval(li *loopInfo, phis map[*ssa.Phi]string, heap HeapState) *
 		}
 	}
 	old := c.newEval(c.fn, c.paramEnv(), c.entry, nil)
-	return c.newEval(c.fn, env, heap, old)
+	ev := c.newEval(c.fn, env, heap, old)
+	// atentry(e): e in the state in which the loop was entered (heap and loop variables)
+	if li.entryHeap != nil {
+		eenv := map[string]envVal{}
+		for k, v := range env {
+			eenv[k] = v
+		}
+		for p := range phis {
+			if nm := p.Comment; nm != "" {
+				if t, ok := li.phiEntry[p]; ok {
+					eenv[nm] = envVal{t, p.Type()}
+				}
+			}
+		}
+		ev.loopEntry = c.newEval(c.fn, eenv, li.entryHeap, old)
+	}
+	return ev
 }
 
 func (c *FnVC) paramByName(n string) (*ssa.Parameter, bool) {
@@ -787,4 +807,27 @@ func allSame(vs []ssa.Value, x ssa.Value) bool {
 		}
 	}
 	return len(vs) > 0
+}
+
+// assumedPureCall: a call without contract that the function's contract lists under
+// assume_pure (same description strings as FnVC.unknownCall).
+func (c *FnVC) assumedPureCall(cc *ssa.CallCommon) bool {
+	if c.ct == nil || len(c.ct.AssumePure) == 0 {
+		return false
+	}
+	var desc string
+	switch {
+	case cc.IsInvoke():
+		desc = "interface method " + cc.Method.FullName()
+	case cc.StaticCallee() != nil:
+		desc = "static call " + cc.StaticCallee().String()
+	default:
+		desc = "funcvalue call of function value " + cc.Value.Name()
+	}
+	for _, a := range c.ct.AssumePure {
+		if a != "" && strings.Contains(desc, a) {
+			return true
+		}
+	}
+	return false
 }
